@@ -13,25 +13,21 @@ Definition trow_close (r : trow) (e : qv * qv * qv) : bool :=
 
 Inductive tobs := ORows (l : list (qv * qv * qv)) | OAllNaN.
 
-Definition check_hourly (c : bool * option int * list int * list reading * tobs) : bool :=
-  let '(billing, tol, midx, temps, e) := c in
-  match hourly_path billing (option_map zi tol) (map zi midx) temps, e with
+(* the input frame row by row: stamp, observed, temperature *)
+Definition frm (l : list (int * qv * qv)) : list frow :=
+  map (fun p => (zi (fst (fst p)), qv_to (snd (fst p)), qv_to (snd p))) l.
+
+Definition check_hourly (c : bool * bool * option int * list int * list frow * tobs) : bool :=
+  let '(elec, billing, tol, midx, fr, e) := c in
+  match class_hourly elec billing (option_map zi tol) (map zi midx) fr, e with
   | TRows rows, ORows l => list_eqb2 trow_close rows l
   | TErrAllNaN, OAllNaN => true
   | _, _ => false
   end.
 
-(* temperature only (the counts of the billing class are not observable per day when the frame is not daily) *)
-Definition check_hourly_temp (c : bool * option int * list int * list reading * list qv) : bool :=
-  let '(billing, tol, midx, temps, e) := c in
-  match hourly_path billing (option_map zi tol) (map zi midx) temps with
-  | TRows rows => list_eqb2 (fun r x => oq_close (t_mean r) (qv_to x)) rows e
-  | TErrAllNaN => false
-  end.
-
-Definition check_subhourly (c : bool * bool * list reading * list Z * int * list (qv * qv * qv)) : bool :=
-  let '(scale, exact, rs, bs, first, e) := c in
-  let rows := subhourly_path scale exact rs bs in
+Definition check_subhourly (c : bool * bool * bool * list frow * list Z * int * list (qv * qv * qv)) : bool :=
+  let '(elec, scale, exact, fr, bs, first, e) := c in
+  let rows := class_subhourly elec scale exact fr bs in
   match rows with [] => true | r :: _ => fst r =? zi first end &&
   list_eqb2 trow_close (map snd rows) e.
 
